@@ -16,7 +16,7 @@ echo "== demo on clean tree"; bash "$SD/demo.sh" "$WT"; CLEAN=$?
 echo "clean demo exit=$CLEAN"
 echo "== apply patch"
 if ! git apply "$SD/patch.diff"; then
-  echo "patch does not apply directly; trying 3way"; git apply --3way "$SD/patch.diff" || { echo "RESULT $ID patch-does-not-apply"; exit 4; }
+  echo "RESULT $ID patch-does-not-apply"; git reset -q --hard; exit 4
 fi
 git diff > /tmp/wt/verify_logs/$ID.applied.diff
 cargo build --offline -j 8 2>&1 | tail -2; BUILD=${PIPESTATUS[0]}
